@@ -3368,3 +3368,10 @@ mod unit_tests {
         }
     }
 }
+
+// Verification hook (add-only). Compiled only under `cargo kani` with `--cfg ejmahler_rustfft_verif`; a child module so that
+// the private kernel methods above are visible to the harnesses, which live outside this repository.
+#[cfg(all(kani, ejmahler_rustfft_verif))]
+mod verif_kani_sse {
+    include!(concat!(env!("EJMAHLER_RUSTFFT_VERIF_DIR"), "/kani/harness_sse.rs"));
+}
